@@ -14,6 +14,9 @@ claimed = {
  "C10": ("CFG ordering/error-edge rules + freshness analysis of request fields", "§4 C10"),
  "C11": ("sibling-agreement rule over phi operands + constant folding of the conversion functions over their SSA + writer/reader constant tables", "§4 C11"),
  "C12": ("CFG ordering/rollback rules + interprocedural field-based alias taint of the shared configuration maps", "§4 C12"),
+ "C13": ("writer/reader agreement tables over go/types (types, struct tags, constants) + data-dependence rules", "§4 C13"),
+ "C15": ("CFG ordering rules (incl. flattened handler call sequences) + ownership guard rules + lockset", "§4 C15"),
+ "C17": ("CFG classifier-edge rules (return true only via listed edges) + must-pass-through rules", "§4 C17"),
  "C14": ("CFG error-edge/cleanup rules + operand-provenance rules for iptables lines + lockset", "§4 C14"),
  "C18": ("nil-safety (dominating non-nil test) analysis + fixed-width loop/wrap rule + lock pairing/order analysis", "§4 C18"),
  "C20": ("CFG reject-edge rules + fixed-width arithmetic rule", "§4 C20"),
